@@ -129,7 +129,7 @@ func (f *serveFamily) serves(prop string) bool {
 
 var serveFamilies = []*serveFamily{
 	{name: "errors", rules: []string{"C01|R2a", "C01|R2b"}, mask: evReadLoopPending | evErrResp, readers: true},
-	{name: "body", rules: []string{"C02|R1a", "C02|R1b", "C02|R2"}, mask: evMayCont | evContRead | evRespClose | evHandler | evStreamChecked | evWrote | evCtxSwapped | evTAStale0 | evTAStale0<<1 | evTAStale0<<2 | evTAStale0<<3},
+	{name: "body", rules: []string{"C02|R1a", "C02|R1b", "C02|R2"}, mask: evMayCont | evContRead | evRespClose | evHandler | evStreamChecked | evWrote | evCtxSwapped | evTAStale0 | evTAStale0<<1 | evTAStale0<<2 | evTAStale0<<3 | evTAPost0 | evTAPost0<<1 | evTAPost0<<2 | evTAPost0<<3 | evDropNeg},
 	{name: "close", rules: []string{"C10|R2a", "C10|R2b", "C10|R2c", "C10|R2d"}, mask: evRespClose | evNotHTTP11 | evKeepAliveHdr | evWrote | evHijackGo},
 	{name: "carried", rules: []string{"C11|R-loop", "C11|R-reset", "C07|R-default", "C35|R-reset"}, mask: evHandler | evReqReset | evRespReset, carried: true},
 	{name: "connstate", rules: []string{"C14|R1", "C14|R2"}, mask: evByteOK | evHandler, state: true},
@@ -419,6 +419,23 @@ func (p *Prog) serveLoop(prop string) *serveResult {
 		return 0
 	}
 
+	// fields of Request that its stream closer raises (stores true to): the "an unread stream was dropped" flags
+	dropFlags := map[*types.Var]bool{}
+	if cbs := p.Func("(*Request).closeBodyStream"); cbs != nil {
+		for _, b := range cbs.Blocks {
+			for _, in := range b.Instrs {
+				if st, ok := in.(*ssa.Store); ok {
+					if c, isC := st.Val.(*ssa.Const); isC && c.Value != nil && c.Value.ExactString() == "true" {
+						if _, fv := fieldOfAddr(st.Addr); fv != nil {
+							dropFlags[fv] = true
+						}
+					}
+				}
+			}
+		}
+	}
+	res.counts["C02.R2 drop flags raised by Request.closeBodyStream"] = len(dropFlags)
+
 	// the close decision: condition guarding the server's SetConnectionClose on the response
 	var closeCond ssa.Value
 	var closeCall *ssa.Call
@@ -496,7 +513,7 @@ func (p *Prog) serveLoop(prop string) *serveResult {
 	var x *Explorer
 	var cur *serveFamily
 	setb := func(st *State, bit uint64) {
-		if cur.mask&bit != 0 || (cur.readers && bit >= evReaderBit0 && bit < 1<<39) || (cur.carried && bit >= 1<<40) {
+		if cur.mask&bit != 0 || (cur.carried && bit >= 1<<40 && bit < 1<<56) {
 			st.Set(bit)
 		}
 	}
@@ -526,7 +543,7 @@ func (p *Prog) serveLoop(prop string) *serveResult {
 		v.n++
 	}
 
-	iterBits := evTimeoutKnown | evCtxSwapped | evTAStale0 | evTAStale0<<1 | evTAStale0<<2 | evTAStale0<<3 | evMayCont | evContRead | evHandler | evRespClose | evWrote | evFlushedAfterWrite | evStreamChecked | evErrResp |
+	iterBits := evTimeoutKnown | evCtxSwapped | evTAStale0 | evTAStale0<<1 | evTAStale0<<2 | evTAStale0<<3 | evTAPost0 | evTAPost0<<1 | evTAPost0<<2 | evTAPost0<<3 | evDropNeg | evMayCont | evContRead | evHandler | evRespClose | evWrote | evFlushedAfterWrite | evStreamChecked | evErrResp |
 		evStopChecked | evTimeoutT | evFreshCtx | evCopied | evNotHTTP11 | evKeepAliveHdr | evByteOK | evReadLoopPending | evIdleMarked |
 		evReqReset | evRespReset | evHeadSkip | evHeadTested | evIsHead
 
@@ -687,6 +704,13 @@ func (p *Prog) serveLoop(prop string) *serveResult {
 						setb(st, bit)
 					} else {
 						st.Clear(bit)
+					}
+					// an assertion made after the handler ran sees what the handler left: it may have dropped the stream
+					post := (bit / evTAStale0) * evTAPost0
+					if st.Has(evHandler) {
+						setb(st, post)
+					} else {
+						st.Clear(post)
 					}
 				}
 			}
@@ -922,7 +946,12 @@ func (p *Prog) serveLoop(prop string) *serveResult {
 			if ex, ok := v.(*ssa.Extract); ok && ex.Index == 1 {
 				if ta, ok := ex.Tuple.(*ssa.TypeAssert); ok {
 					if bit := taBit(ta); bit != 0 && !tk && !st.Has(bit) && !st.Has(evWrote) {
-						setb(st, evStreamChecked)
+						if st.Has((bit / evTAStale0) * evTAPost0) {
+							// "no stream" found after the handler: only conclusive together with the drop flag
+							setb(st, evDropNeg)
+						} else {
+							setb(st, evStreamChecked)
+						}
 					}
 				}
 			}
@@ -949,6 +978,10 @@ func (p *Prog) serveLoop(prop string) *serveResult {
 						setb(st, evTimeoutT)
 					}
 				}
+			}
+			// the flag Request.closeBodyStream raises when an unread connection-backed stream is dropped, found false
+			if _, fv := loadedField(v); fv != nil && dropFlags[fv] && !tk && st.Has(evDropNeg) && !st.Has(evCtxSwapped) {
+				setb(st, evStreamChecked)
 			}
 			// a handler-settable ctx field found zero holds nothing to clear
 			if allCtxBits != 0 {
@@ -1481,6 +1514,7 @@ func (p *Prog) serveLoop(prop string) *serveResult {
 			{"ExpectHandler rejection", "dyn:ExpectHandler"},
 			{"ContinueHandler rejection", "dyn:ContinueHandler"},
 			{"unread streamed body", "call:requestStream.fullyRead"},
+			{"streamed body dropped unread by the handler", "bodyStreamUnread"},
 		}
 		for _, rq := range req {
 			add("C10", "R1", "close decision depends on "+rq.name, hasAtomContaining(at, rq.sub), p.Pos(closeCall.Pos()),
@@ -1500,6 +1534,8 @@ const (
 	evCtxSwapped   uint64 = 1 << 37 // the ctx variable was re-assigned after the handler ran (timeout hand-off)
 	evTAStale0     uint64 = 1 << 32 // 4 bits: type assertion i to *requestStream was made on the swapped ctx
 	evTimeoutKnown uint64 = 1 << 36 // the loop has tested ctx.timeoutResponse after the handler
+	evTAPost0      uint64 = 1 << 56 // 4 bits: type assertion i to *requestStream was made after the handler returned
+	evDropNeg      uint64 = 1 << 60 // a post-handler assertion found no stream; the drop flag has not been consulted yet
 )
 
 func typeIsNetConn(t types.Type) bool {
